@@ -2,12 +2,25 @@ package bigbuff
 
 import (
 	"fmt"
+	"strings"
 
 	"github.com/joeycumines/go-bigbuff/internal/v/vrt"
 )
 
 // exclusiveCheck: C09 (signatures overlap / key-...) and C10 (everything else).
+// exclusiveCheck: an overlap (C09) does not hide what else is wrong with the same execution (C10:
+// wrong or missing outcomes): both are reported, one per line.
 func exclusiveCheck(r *vrt.Result) string {
+	m := exclusiveCheckInner(r, false)
+	if strings.HasPrefix(m, "overlap") {
+		if m2 := exclusiveCheckInner(r, true); m2 != "" {
+			return m + "\n" + m2
+		}
+	}
+	return m
+}
+
+func exclusiveCheckInner(r *vrt.Result, skipOverlap bool) string {
 	if r.Status == vrt.StSteps {
 		return "step-horizon: execution exceeded the step horizon"
 	}
@@ -54,7 +67,9 @@ func exclusiveCheck(r *vrt.Result) string {
 		case "start":
 			x := &exec{name: e.Str(0), key: e.Str(1), start: e.Seq}
 			if open[x.name] != nil {
-				return fmt.Sprintf("overlap: work function %s started again while it was running", x.name)
+				if !skipOverlap {
+					return fmt.Sprintf("overlap: work function %s started again while it was running", x.name)
+				}
 			}
 			open[x.name] = x
 			execs = append(execs, x)
@@ -104,7 +119,9 @@ func exclusiveCheck(r *vrt.Result) string {
 			as, ae := extent(a)
 			bs, be := extent(b)
 			if as < be && bs < ae {
-				return fmt.Sprintf("overlap: work functions %s and %s of key %q ran at the same time", a.name, b.name, a.key)
+				if !skipOverlap {
+					return fmt.Sprintf("overlap: work functions %s and %s of key %q ran at the same time", a.name, b.name, a.key)
+				}
 			}
 		}
 	}
